@@ -66,6 +66,10 @@ def families(quick):
                         [[sl([S("x"), S("")])], mp([(NKEY(1, "a"), [I(3), S("b"), I(0), False])])])] * 2),
         ("key-scratch", [("unmarshal", KMAP, mp([(NKEY(1, "a"), I(1)), (NKEY(0, "b"), I(2)), (NKEY(7, ""), I(3))])),
                           ("unmarshal", KMAP, mp([(NKEY(5, ""), I(4)), (NKEY(6, "z"), I(5))]))]),
+        # a decode that fails inside a map entry, then two decoders of the same map type: the scratch pool must not hand one key buffer to both
+        ("key-scratch-after-error", [("corrupt", KMAP, mp([(NKEY(9, "q"), I(9))])),
+                                     ("unmarshal", KMAP, mp([(NKEY(1, "a"), I(1)), (NKEY(0, "b"), I(2))])),
+                                     ("unmarshal", KMAP, mp([(NKEY(5, ""), I(4)), (NKEY(6, "z"), I(5))]))]),
         ("intern-two", [("unmarshal", ISTR, [S("hat"), I(1)]), ("unmarshal", ISTR, [S("cat"), I(2)])]),
         ("intern-same", [("unmarshal", ISTR, [S("hat"), I(1)]), ("unmarshal", ISTR, [S("hat"), I(2)])]),
     ]
